@@ -156,8 +156,13 @@ func init() {
 			if c16Extra != nil {
 				c16Extra(c)
 			}
+			// the dump as the command-line tool delivers it (-d): every schedule of the tool's goroutines
+			cliExplore(c, "C16", [][]string{{"-d"}, {"-d", "-p", "-e", "-r"}}, []string{"7.4", "5.6"}, cliConfigs(c.Thorough(), false))
 		},
 		Replay: func(c *core.Ctx, raw json.RawMessage) {
+			if cliReplay(c, raw) {
+				return
+			}
 			var cs c16Case
 			if json.Unmarshal(raw, &cs) == nil && cs.Mode == "slot" {
 				c16One(c, cs)
